@@ -2,7 +2,8 @@
 
 spec -> code -> spec: spec/LightDir.tla generates histories of discover / failed discover / advance
 time / refresh (= discover-or-fail then expire) steps: exhaustively for short ones over a small
-alphabet, by TLC simulation for long ones over a larger alphabet.  Each history is replayed into a
+alphabet (TLC enumerates them), by seeded random walks over LightDir's step alphabet for long ones
+over a larger alphabet (TLC -simulate was far too slow with the large \\E sets).  Each history is replayed into a
 real LightSet over SimLan (virtual time.time in bardolph.controller.light, so "not seen for longer
 than the configured age" is exact); after every step every public getter, the group/location each
 Light reports and next/prev from every probe value are recorded; TLC (TraceLightDir.tla) steps
